@@ -420,7 +420,7 @@ int main(int argc, char **argv)
     vp::bound("options", "linelength {10,20,40,80,120} x precision {0,2,9} x compress {0,1}, lossless=true, sep=' ' (30 sets); whole messages behind /a and /a/b0 with " + std::string(T ? "4" : "2") + " rotating option sets per list");
     vp::bound("value_alphabet_V", (long long)V.size());
     vp::bound("lists_plain", "all lists of length 0..2 over V; all of length 3 over " + std::string(T ? "V; all of length 4 over a 22-value sub-alphabet" : "a 22-value sub-alphabet") + "; lists of length 4..12 per type and mixed (cyclic, no accidental runs)");
-    vp::bound("runs", "prefix in sub-alphabet+none x run{i h c f d: delta 0,1,-1,3; T F: constant, alternating; s S constant" + std::string(T ? "; r N constant; starts 0, -2, type maximum-7" : "") + "} x length 3..8 x suffix in sub-alphabet+none" + (T ? "; prefix x suffix additionally over all of V x V" : "") + "; constant runs of 4..7 equal arrays; two runs in a row; two adjacent runs sharing their boundary value (all delta pairs, at list start / behind a value); runs whose first step wraps around the integer range; 5..8 values stepping by one across INT_MAX/INT_MIN (32 and 64 bit); 64-bit runs with steps 2^32+-1, +-2^32, +-2^31, 2^33+1, 5e9, 2^40, 2^53+1; 32-bit runs crossing zero with a span above 2^31 (one of 100 values); an array followed by a counting run of its element type");
+    vp::bound("runs", "prefix in sub-alphabet+none x run{i h c f d: delta 0,1,-1,3; T F: constant, alternating; s S constant" + std::string(T ? "; r N constant; starts 0, -2, type maximum-7" : "") + "} x length 3..8 x suffix in sub-alphabet+none" + (T ? "; prefix x suffix additionally over all of V x V" : "") + "; constant runs of 4..7 equal arrays; two runs in a row; two adjacent runs sharing their boundary value (all delta pairs, at list start / behind a value / as the elements of an array); runs whose first step wraps around the integer range; 5..8 values stepping by one across INT_MAX/INT_MIN (32 and 64 bit); 64-bit runs with steps 2^32+-1, +-2^32, +-2^31, 2^33+1, 5e9, 2^40, 2^53+1; 32-bit runs crossing zero with a span above 2^31 (one of 100 values); an array followed by a counting run of its element type");
     vp::bound("arrays", "every homogeneous array of length 0..4 over 3 values per element type (14 element types), alone and between scalars; arrays of 1..2 (thorough 3) arrays over 6 inner arrays; arrays holding a run of length 3..8 with an optional extra element");
     vp::bound("strings", "every string of length 0..3 over {a \" \\ \\n ' ' % 1} + identifiers + reserved words + one 130-char string, as s and S, alone and between neighbours");
     vp::bound("chars", T ? "every printable ASCII char and C escape, alone and every ordered pair" : "6 chars in V; every printable ASCII char and C escape alone");
@@ -496,6 +496,8 @@ int main(int argc, char **argv)
             do_list("run", idx++, L, FEW);
             List P{pf::Str("x")}; P.insert(P.end(), L.begin(), L.end()); do_list("run", idx++, P, FEW);
             List Q{mkv(k, start)}; Q.insert(Q.end(), L.begin(), L.end()); do_list("run", idx++, Q, FEW);
+            do_list("run", idx++, List{pf::Arr(L)}, FEW);                                  // the same two runs as the elements of an array
+            { List E{mkv(k, start + 40)}; E.insert(E.end(), L.begin(), L.end()); do_list("run", idx++, List{pf::Arr(E)}, FEW); }
         }
     }
     // runs whose FIRST step wraps around the end of the integer range (the first difference is +-1 only modulo 2^n)
